@@ -185,3 +185,106 @@ pub proof fn lemma_empty_complement(l: Seq<CharSet>, w: int)
         assert(0 <= w <= MAX_CHAR && !cl_in(l, w));
     }
 }
+
+// ---- try_from_iter ----
+pub open spec fn cs_disjoint(a: CharSet, b: CharSet) -> bool {
+    a.end < b.start || b.end < a.start
+}
+
+pub open spec fn cl_pairwise_disjoint(s: Seq<CharSet>) -> bool {
+    forall|i: int, j: int| 0 <= i < j < s.len() ==> cs_disjoint(#[trigger] s[i], #[trigger] s[j])
+}
+
+// perm is a bijection on [0, n) with inverse inv
+pub open spec fn is_perm(perm: Seq<int>, inv: Seq<int>, n: int) -> bool {
+    &&& perm.len() == n
+    &&& inv.len() == n
+    &&& forall|i: int| 0 <= i < n ==> 0 <= #[trigger] perm[i] < n && inv[perm[i]] == i
+    &&& forall|k: int| 0 <= k < n ==> 0 <= #[trigger] inv[k] < n && perm[inv[k]] == k
+}
+
+// t is s rearranged by perm
+pub open spec fn rearranged(t: Seq<CharSet>, s: Seq<CharSet>, perm: Seq<int>, inv: Seq<int>) -> bool {
+    &&& t.len() == s.len()
+    &&& is_perm(perm, inv, s.len() as int)
+    &&& forall|i: int| 0 <= i < t.len() ==> #[trigger] t[i] == s[perm[i]]
+}
+
+pub open spec fn is_rearrangement(t: Seq<CharSet>, s: Seq<CharSet>) -> bool {
+    exists|perm: Seq<int>, inv: Seq<int>| rearranged(t, s, perm, inv)
+}
+
+// the witness computed by scanning the first k intervals the way try_from_iter does
+pub open spec fn wit_scan(l: Seq<CharSet>, k: int) -> int
+    decreases k,
+{
+    if k <= 0 { 0 } else {
+        let w = wit_scan(l, k - 1);
+        if l[k - 1].start <= w { l[k - 1].end + 1 } else { w }
+    }
+}
+
+pub open spec fn adjacent_sorted(l: Seq<CharSet>, k: int) -> bool {
+    forall|i: int| 0 <= i < k - 1 ==> (#[trigger] l[i]).end < l[i + 1].start
+}
+
+pub proof fn lemma_adjacent_sorted(l: Seq<CharSet>, i: int, j: int)
+    requires adjacent_sorted(l, l.len() as int), forall|i: int| 0 <= i < l.len() ==> cs_wf(#[trigger] l[i]), 0 <= i < j < l.len(),
+    ensures l[i].end < l[j].start,
+    decreases j - i,
+{
+    if j == i + 1 {
+    } else {
+        lemma_adjacent_sorted(l, i, j - 1);
+        assert(l[j - 1].end < l[j - 1 + 1].start);
+    }
+}
+
+pub proof fn lemma_adjacent_is_sorted(l: Seq<CharSet>)
+    requires adjacent_sorted(l, l.len() as int), forall|i: int| 0 <= i < l.len() ==> cs_wf(#[trigger] l[i]),
+    ensures cp_sorted(l),
+{
+    assert forall|i: int, j: int| 0 <= i < j < l.len() implies (#[trigger] l[i]).end < (#[trigger] l[j]).start by {
+        lemma_adjacent_sorted(l, i, j);
+    }
+}
+
+pub proof fn lemma_wit_scan(l: Seq<CharSet>, k: int)
+    requires cp_sorted(l), 0 <= k <= l.len(),
+    ensures cl_witness(l.take(k), wit_scan(l, k)), cp_sorted(l.take(k)),
+    decreases k,
+{
+    if k == 0 {
+        assert(l.take(0).len() == 0);
+    } else {
+        lemma_wit_scan(l, k - 1);
+        let p = l.take(k - 1);
+        assert(l.take(k) =~= p.push(l[k - 1]));
+        if k - 1 > 0 { assert(p[p.len() - 1] == l[k - 2]); assert(l[k - 2].end < l[k - 1].start); }
+        lemma_push_witness(p, wit_scan(l, k - 1), l[k - 1]);
+    }
+}
+
+pub proof fn lemma_rearranged_disjoint(t: Seq<CharSet>, s: Seq<CharSet>, perm: Seq<int>, inv: Seq<int>)
+    requires rearranged(t, s, perm, inv),
+    ensures cl_pairwise_disjoint(t) == cl_pairwise_disjoint(s),
+{
+    let n = s.len() as int;
+    if cl_pairwise_disjoint(s) {
+        assert forall|i: int, j: int| 0 <= i < j < t.len() implies cs_disjoint(#[trigger] t[i], #[trigger] t[j]) by {
+            let a = perm[i];
+            let b = perm[j];
+            assert(inv[a] == i && inv[b] == j);
+            if a < b { assert(cs_disjoint(s[a], s[b])); } else { assert(cs_disjoint(s[b], s[a])); }
+        }
+    }
+    if cl_pairwise_disjoint(t) {
+        assert forall|i: int, j: int| 0 <= i < j < s.len() implies cs_disjoint(#[trigger] s[i], #[trigger] s[j]) by {
+            let a = inv[i];
+            let b = inv[j];
+            assert(perm[a] == i && perm[b] == j);
+            assert(t[a] == s[i] && t[b] == s[j]);
+            if a < b { assert(cs_disjoint(t[a], t[b])); } else { assert(cs_disjoint(t[b], t[a])); }
+        }
+    }
+}
